@@ -213,10 +213,14 @@ func OverflowSweep(mp int, qs []int) []Job {
 				}
 				g.sync(x)
 				// traffic after the overflow: must fail, and must not reach the reader past a gap
+				g.read(y, hy, 64, 64)
 				g.write(x, hx, 5)
 				g.write(x, hx, 6)
 				g.sync(x)
-				g.aftermath(q + 3)
+				for i := 0; i < q+1; i++ {
+					g.read(y, hy, 64, 64)
+				}
+				g.aftermath(2)
 				jobs = append(jobs, Job{fmt.Sprintf("overflow-q%d-r%d-d%d", q, r, dir), g.script("overflow", true)})
 			}
 		}
